@@ -1,6 +1,7 @@
 package c08
 
 import (
+	"flag"
 	"testing"
 
 	"verif/internal/ev"
@@ -12,7 +13,7 @@ import (
 //   model_test.go    M-db, the reference model (plain Go maps), written from the meaning of the db interface
 //   harness_test.go  opening the real client, comparison helpers, the full scan through every read method
 //   gen_test.go      argument generators (ids that exist / do not exist, lists, flags, names)
-//   rules_test.go    one rule per method of db.ReadOnly and db.Transaction (72 methods)
+//   rules_test.go    one rule per method of db.ReadOnly and db.Transaction (69 methods)
 //   machine_test.go  TestStateMachine (small histories), TestBulk_<Method> (list lengths around the chunk limits)
 //   known_test.go    deterministic regressions of the defects found (TestKnown_<id>)
 //   zz_coverage_test.go  asserts that every method was called at least once in this run
@@ -20,12 +21,20 @@ import (
 const ruleText = "case contains a list argument > 1000 or an aborted transaction with >= 1 prior write"
 
 func TestMain(m *testing.M) {
+	// bound the time rapid spends minimising a failure: a defect that turns every test red must still end within the
+	// driver's time budget (14 tests x 30 s default would not)
+	flag.Parse()
+
+	if f := flag.Lookup("rapid.shrinktime"); f != nil && f.Value.String() == "30s" {
+		_ = f.Value.Set("12s")
+	}
+
 	ev.Main(m, "C08", "exploration", ruleText,
 		"a write operation that returns an error ends its transaction (every caller in gluon propagates the error, which rolls back); "+
 			"the state inside a transaction after a failed write is not judged",
 		"arguments no caller in /repo ever passes and the interface does not define (non-existent mailbox id for the per-mailbox "+
 			"tables, non-member / non-existent ids in write lists, DeleteMessages of a message that is still in a mailbox, "+
-			"pairs whose remote id does not belong to the internal id, empty flag lists for SetFlagsOnMessages / Add*FlagsToAllMailboxes) "+
+			"pairs whose remote id does not belong to the internal id, empty flag lists for Add*FlagsToAllMailboxes) "+
 			"are either not generated or judged leniently: an error is accepted, silent corruption is not",
 		"migration from old schema versions is out of scope")
 }
